@@ -39,7 +39,7 @@ ASSUMPTIONS = ['a factoid row c0..cn means 0 <= c0*x0+..+c(n-1)*x(n-1)+cn over t
                'Z3 "unsat" is never used against the code',
                'integer box for brute force: radius 60/30/8/4/2 for 1..5 variables',
                'non-termination is cut by logical budgets (400 pivots / 120-150 handle_assertion calls per case) and a 6 s '
-               'CPU-time watchdog per case (3 firings abort the shard); a firing is counted (and makes the run inconclusive above 0.5 % of a shard), never judged']
+               'CPU-time watchdog per case (>= 3 firings on > 1 % of the cases abort the shard); a firing is counted (and makes the run inconclusive above 0.5 % of a shard), never judged']
 REQUIRED = {
     'quick': {'calibration_ok': 16, 'rational-simplex-shards-terminating': 6, 'hook:omega.solve_matrix': 3000, 'omega.solve_matrix:SAT-judged': 1500,
               'omega.solve_matrix:UNSAT-judged': 600, 'omega.solve_matrix:normalised-decided': 1500,
@@ -222,13 +222,14 @@ class State:
         self.fired = 0
         self.reset()
 
-    def reset(self, max_pivots=400, max_ha=120):
+    def reset(self, max_pivots=400, max_ha=120, keep_events=False):
         self.pivots = 0
         self.ha = 0
         self.max_pivots, self.max_ha = max_pivots, max_ha
         self.over = False
         self.swallowed = []        # non-UNSAT exceptions raised inside Simplex.handle_assertion
-        del self.events[:]
+        if not keep_events:
+            del self.events[:]
 
 
 ST = State()
@@ -402,9 +403,13 @@ def judge_proof(ctx, entry, pt, sysd, domain, atoms, ty, names, mechclass, extra
     and the constraints it rests on are not satisfiable."""
     from kernel import theory
     ctx.count(entry + ':proofs-produced')
+    ST.reset(max_pivots=10 ** 7, max_ha=10 ** 7, keep_events=True)     # the checker may re-run the tableau code (macros)
     try:
         with contextlib.redirect_stdout(io.StringIO()):
             th = theory.thy.check_proof(pt.export(), no_gaps=True)
+    except BudgetExceeded:
+        ctx.count(entry + ':proof-check-cut-by-watchdog')
+        return
     except Exception as e:
         ctx.violation('%s:proof-rejected-by-checker/%s' % (entry, type(e).__name__),
                       '%s produced a refutation that theory.check_proof rejects: %s %s' % (
@@ -537,10 +542,10 @@ def judge_omega_event(ctx, ev, sysd, entry, extra):
         del ST.events[:]
         ST.events.extend(keep)
         rows = L.from_omega(nm)
-        if r[0] == 'SAT':
+        if r[0] == 'SAT' and tag == 'SAT':          # same symptom on the normalised system?
             a = [r[1].get(i, 0) for i in range(nv)]
             return cls if L.first_violated(rows, a) is None else 'normalised-input'
-        if r[0] == 'UNSAT':
+        if r[0] == 'UNSAT' and tag == 'UNSAT':
             st, w = truth_of(ctx, sysd, 'int')
             return cls if st != 'sat' else 'normalised-input'
         return cls
@@ -730,17 +735,21 @@ def real_terms(sysd, names, one_style, ty='real'):
     return out, xs
 
 
-def first_occurrence_names(sysd):
-    """term_to_ineq renames variables x_0, x_1, ... in order of first occurrence."""
-    order = []
-    for co, _, _ in rows_of(sysd):
-        if not any(co):
-            order.append(('const', len(order)))
-            continue
-        for i, c in enumerate(co):
-            if c != 0 and i not in order:
-                order.append(i)
-    return order
+def internal_names(M, tms, xs):
+    """The macros answer SAT with a mapping keyed by the internal variable names that M.term_to_ineq gives to the
+    user's variables; that function returns the renaming, which is read here (result: internal name per variable of
+    the system, None for a variable that does not occur; None altogether if the renaming cannot be read)."""
+    try:
+        _, _, back = M.term_to_ineq(tms)
+        mine = {S.tm_shadow(x): i for i, x in enumerate(xs)}
+        out = [None] * len(xs)
+        for k, v in back.items():
+            sv = S.tm_shadow(v)
+            if sv in mine:
+                out[mine[sv]] = S.tm_shadow(k)[1]
+        return out
+    except Exception:
+        return None
 
 
 def drive_simplex(ctx, sysd, opts):
@@ -807,13 +816,13 @@ def drive_simplex(ctx, sysd, opts):
             judge_proof(ctx, 'SimplexMacro', r, sysd, 'real', xs_atoms, 'real', names, cls, dict(extra, part='macro'))
             out.append('UNSAT')
         elif isinstance(r, dict):
-            order = first_occurrence_names(sysd)
-            assign = [0] * sysd['nv']
-            for k, i in enumerate(order):
-                if isinstance(i, int):
-                    assign[i] = r.get('x_%d' % k, 0)
-            ctx.count('simplex_macro:SAT-judged')
-            judge_witness(ctx, 'SimplexMacro', sysd, assign, 'real', cls, dict(extra, part='macro'))
+            inames = internal_names(M, tms, xs)
+            if inames is None:
+                ctx.count('simplex_macro:SAT-not-judged(internal names unreadable)')
+            else:
+                ctx.count('simplex_macro:SAT-judged')
+                judge_witness(ctx, 'SimplexMacro', sysd, [r.get(n, 0) if n else 0 for n in inames], 'real', cls,
+                              dict(extra, part='macro'))
             out.append('SAT')
         else:
             ctx.count('simplex_macro:other-result')
@@ -947,13 +956,13 @@ def drive_strict(ctx, sysd, opts):
                         cls, dict(extra, part='macro', has_strict=has_strict))
             out.append('UNSAT')
         elif isinstance(r, dict):
-            order = first_occurrence_names(sysd)
-            pairs = [(0, 0)] * sysd['nv']
-            for k, i in enumerate(order):
-                if isinstance(i, int):
-                    pairs[i] = pr(r.get('x_%d' % k, zero))
-            ctx.count('strict_macro:SAT-judged')
-            judge_delta_witness(ctx, 'StrictSimplexMacro', sysd, pairs, cls, dict(extra, part='macro'))
+            inames = internal_names(M, tms, xs)
+            if inames is None:
+                ctx.count('strict_macro:SAT-not-judged(internal names unreadable)')
+            else:
+                ctx.count('strict_macro:SAT-judged')
+                judge_delta_witness(ctx, 'StrictSimplexMacro', sysd, [pr(r.get(n, zero)) if n else (0, 0) for n in inames],
+                                    cls, dict(extra, part='macro'))
             out.append('SAT')
         else:
             ctx.count('strict_macro:other-result')
@@ -1132,7 +1141,7 @@ def _watchdog(signum, frame):
 def run_case(ctx, drv, sysd, opts, sample=False):
     import signal
     signal.signal(signal.SIGVTALRM, _watchdog)
-    signal.setitimer(signal.ITIMER_VIRTUAL, CASE_CPU_S)
+    signal.setitimer(signal.ITIMER_VIRTUAL, CASE_CPU_S, CASE_CPU_S)     # periodic: every sub-drive of the case gets cut
     try:
         res = DRIVERS[drv](ctx, sysd, opts)
     except BudgetExceeded:
@@ -1183,9 +1192,10 @@ def run_shard(ctx, spec):
         sysd, opts = gen_case(ctx.rng, drv)
         ctx.count('shape:' + sysd['shape'])
         run_case(ctx, drv, sysd, opts, sample=(k < 2 and spec['i'] == 0))
-        if ctx.counters.get(drv + ':case-watchdog:budget-exceeded', 0) + ctx.counters.get('watchdog-fired', 0) >= 3:
-            ctx.count('shard-aborted-after-3-watchdog-firings')
-            ctx.note('%s/%d aborted after %d systems: the per-case CPU watchdog fired 3 times' % (drv, spec['i'], k + 1))
+        fired = ctx.counters.get('watchdog-fired', 0)
+        if fired >= 3 and fired * 100 > k + 1:       # >= 3 firings and > 1 % of the cases so far: give up (inconclusive)
+            ctx.count('shard-aborted-by-watchdog')
+            ctx.note('%s/%d aborted after %d systems: the per-case CPU watchdog fired %d times' % (drv, spec['i'], k + 1, fired))
             return
     if spec['i'] == 0:
         ctx.note('shard %s/0: %d systems in %.1f s (reporting only)' % (drv, spec['n'], time.time() - t0))
